@@ -1208,7 +1208,7 @@ def run_trunc(case, seed, R):
                 T = np.zeros(0)
             R.observe(T)
             if T.shape != F.shape:
-                classes['VIOLATION:returned-other-shape'] += 1
+                classes['unannounced:returned-other-shape'] += 1
                 bad.setdefault(f'{site}:shape', []).append((c, f'shape {T.shape} vs untruncated {F.shape}'))
                 continue
             Tf, Ff = T.ravel(), F.ravel()
@@ -1219,7 +1219,7 @@ def run_trunc(case, seed, R):
                 if same:
                     classes['returned:nothing-missing'] += 1
                 else:
-                    classes['VIOLATION:complete-sample-changed'] += 1
+                    classes['unannounced:complete-sample-changed'] += 1
                     bad.setdefault(f'{site}:complete-sample-changed', []).append((c, 'only trailing white space removed, yet the values changed'))
                 continue
             if warned and marked and same:
@@ -1229,15 +1229,15 @@ def run_trunc(case, seed, R):
                 k = int(np.flatnonzero(~complete)[np.flatnonzero(~np.isnan(Tf[qm]))[0]])
                 kind = 'silent' if not warned else 'warned-but-not-marked'
                 sig = f'{rname}:cut-{where}' if not warned else f'{site}:incomplete-sample-not-invalid'
-                classes[f'VIOLATION:{kind}:full-size-plausible-array:cut-{where}'] += 1
+                classes[f'unannounced:{kind}:full-size-plausible-array:cut-{where}'] += 1
                 bad.setdefault(sig, []).append(
                     (c, f'file sample {k} incomplete but read as {Tf[q_of_k[k]]!r} (untruncated {Ff[q_of_k[k]]!r}), '
                         f'{"no warning" if not warned else "warning given"}'))
             elif not same:
-                classes['VIOLATION:complete-sample-changed'] += 1
+                classes['unannounced:complete-sample-changed'] += 1
                 bad.setdefault(f'{site}:complete-sample-changed', []).append((c, f'read {_fmt(T)} untruncated {_fmt(F)}'))
             else:
-                classes['VIOLATION:marked-without-warning'] += 1
+                classes['unannounced:marked-without-warning'] += 1
                 bad.setdefault(f'{site}:no-warning', []).append((c, 'missing samples are NaN but no warning was issued'))
         for sig, lst in bad.items():
             R.violation(sig, f'{rd} {shape} {case["v"]}/{case["nan"]}: data block of {L} '
